@@ -215,6 +215,10 @@ def split(cfg, bound, cap):
         for i in range(len(trace)):
             for alt in range(1, trace[i][1]):
                 items.append((cfg, [c for c, _, _ in trace[:i]] + [alt], bound, cap))
+        if cap is not None:
+            # the cap is a budget for the whole configuration: it is shared by the sub-searches
+            per = max(200, cap // max(1, len(items) - 1))
+            items = [items[0]] + [(c, r, b, per) for c, r, b, _ in items[1:]]
     return items, nondet
 
 
